@@ -68,7 +68,7 @@ def register(reg, S):
                   ("nonempty-first0", f"{n} >= 1 and self.events[0].tick == 0 and self.resolution >= 1")],
         raises={"ValueError": "tick < 0 or self.events[gov(self, tick)].bpm <= 0"},
         ensures=[("time-is-TS", "result == TS(self, tick)")],
-        props=["C01", "C11", "C16"]))
+        props=["C01", "C11", "C12", "C16"]))
 
     # ---------------------------------------------------------------- validators
     reg.add(Contract(
